@@ -34,12 +34,14 @@ var scripts = map[string][]runeRange{
 	"combining":  {{0x300, 0x36F}, {0x20D0, 0x20FF}, {0x1AB0, 0x1AFF}, {0xFE20, 0xFE2F}, {0x483, 0x489}, {0x900, 0x903}, {0x93A, 0x94F}},
 	"punct":      {{0x2000, 0x206F}, {0x2E00, 0x2E4F}, {0x3000, 0x303F}, {0x21, 0x2F}, {0x3A, 0x40}, {0x5B, 0x60}, {0x7B, 0x7E}, {0xA0, 0xBF}},
 	"symbols":    {{0x2070, 0x209F}, {0x20A0, 0x20BF}, {0x2100, 0x218F}, {0x2190, 0x21FF}, {0x2200, 0x22FF}, {0x2500, 0x25FF}, {0x1F300, 0x1F64F}, {0x1F1E6, 0x1F1FF}},
-	"control":    {{0, 0x1F}, {0x7F, 0x9F}, {0xFFF0, 0xFFFF}, {0xE000, 0xE010}, {0xE0001, 0xE007F}, {0xE0100, 0xE01EF}, {0x10FFF0, 0x10FFFF}},
+	// code points that expand to several characters under ASCII folding / compatibility normalisation
+	"expanding": {{0x2460, 0x24FF}, {0x3200, 0x32FF}, {0x3300, 0x33FF}, {0xFB00, 0xFB06}, {0xFDFA, 0xFDFB}, {0x2150, 0x215F}, {0xBC, 0xBE}, {0x1F100, 0x1F10A}, {0x2474, 0x2487}, {0x247D, 0x2487}},
+	"control":   {{0, 0x1F}, {0x7F, 0x9F}, {0xFFF0, 0xFFFF}, {0xE000, 0xE010}, {0xE0001, 0xE007F}, {0xE0100, 0xE01EF}, {0x10FFF0, 0x10FFFF}},
 }
 
 var scriptNames = []string{
 	"latin", "latin", "latin", "latin-ext", "digits", "greek", "cyrillic", "armenian", "hebrew", "arabic", "arabic",
-	"devanagari", "indic", "thai", "hangul", "kana", "han", "han", "fullwidth", "combining", "punct", "symbols", "control",
+	"devanagari", "indic", "thai", "hangul", "kana", "han", "han", "fullwidth", "combining", "punct", "symbols", "control", "expanding",
 }
 
 // runes with special treatment somewhere in the analysis code
@@ -50,6 +52,7 @@ var specialRunes = []rune{
 	0x093C, 0x094D, 0x0901, 0x0902, 0x0929, 0x0931, 0x0934, 0x0958, 0x095F, 0x0972, 0x09CB, 0x09CC, 0x0B94, 0x0BCA, 0x0D4A,
 	0x3000, 0xFF01, 0xFF5E, 0xFF61, 0xFF9E, 0xFF9F, 0x30AB, 0x30AC, 0xFF76, 0x3099, 0x309A, 0x30FB, 0x30FC,
 	0, 0x7F, 0x80, 0x85, 0xA0, 0x2028, 0x2029, 0xD7FF, 0xE000, 0xFFFE, 0xFFFF, 0x10000, 0x10FFFF, 0x1F600, 0x1F1FA, 0x1F1F8,
+	0x247D, 0x2487, 0x2480, 0xFDFA, 0x337F, 0xFB04, 0x2153, 0x3300, // the longest expansions under folding / normalisation
 	'ä', 'ö', 'ü', 'Ä', 'Ö', 'Ü', 'é', 'è', 'ñ', 'ç', 'ø', 'å', 'æ', 'œ', 'š', 'č', 'ć', 'ž', 'đ', 'ğ', 'ş', 'ő', 'ű', 'ă', 'î', 'ț',
 }
 
@@ -86,6 +89,7 @@ var pieces = []string{
 	"книгами", "домов", "љ", "ёж", "kućama", "čovjek", "gradovima", "ljudi", "nj",
 	"kitaplarımızdan", "çocuklar", "iş'ten", "İŞ",
 	"գիրքեր", "ა", "שלום",
+	"⑽", "⑽⑾⑿", "⒇⒇", "x⑽⑾⑿", "ﷺ", "㍿㍿", "ﬄﬄﬄ", "⑽⑾⑿⒀⒁⒂⒃⒄⒅⒆⒇",
 }
 
 func randRuneIn(g *rng.Rand, rs []runeRange) rune {
